@@ -60,7 +60,96 @@ def inventory(tree):
         if nm.startswith("_") and not nm.startswith("__"):
             a = fn.args
             params.setdefault(q, [x.arg for x in a.posonlyargs + a.args])
-    return {"functions": sorted(set(funcs)), "globals": sorted(set(globs)), "literal_loops": loops, "private_params": params}
+    # how many arguments each callee receives positionally in this module (the spelling the rules were written against)
+    call_pos = {}
+    for n in ast.walk(tree):
+        if isinstance(n, ast.Call) and not any(isinstance(a, ast.Starred) for a in n.args):
+            nm = _callee_name(n)
+            if nm:
+                call_pos[nm] = max(call_pos.get(nm, 0), len(n.args))
+    comps = {}
+    for q, fn in _iter_funcs(tree):
+        cs = [ast.unparse(st.value) for st in ast.walk(fn) if isinstance(st, ast.Assign) and isinstance(st.value, ast.ListComp)
+              and len(st.value.generators) == 1 and isinstance(st.value.generators[0].iter, (ast.Tuple, ast.List))]
+        if cs:
+            comps[q] = cs
+    call_kw = {}
+    for n in ast.walk(tree):
+        if isinstance(n, ast.Call):
+            nm = _callee_name(n)
+            if nm:
+                for k in n.keywords:
+                    if k.arg and k.arg not in call_kw.setdefault(nm, []):
+                        call_kw[nm].append(k.arg)
+    return {"functions": sorted(set(funcs)), "globals": sorted(set(globs)), "literal_loops": loops, "private_params": params,
+            "call_positional": call_pos, "call_keywords": {k: sorted(v) for k, v in call_kw.items()}, "literal_comps": comps}
+
+
+def _callee_name(call):
+    """name under which a callee's spelling is remembered: dotted name of a function, `.method` for calls on arbitrary receivers"""
+    f = call.func
+    d = None
+    if _dotted_name(f):
+        parts = []
+        e = f
+        while isinstance(e, ast.Attribute):
+            parts.append(e.attr)
+            e = e.value
+        d = ".".join([e.id] + parts[::-1])
+    if d and (isinstance(f, ast.Name) or d.split(".")[0] in ("np", "numpy", "self", "cls", "math")):
+        return d if not d.startswith(("self.", "cls.")) else "." + d.split(".")[-1]
+    if isinstance(f, ast.Attribute):
+        return "." + f.attr
+    return None
+
+
+# parameter names of callables of other libraries that occur in the repository (leading parameters only)
+_EXTERNAL_SIGNATURES = {
+    "np.full": ["shape", "fill_value", "dtype"], "np.zeros": ["shape", "dtype"], "np.ones": ["shape", "dtype"], "np.empty": ["shape", "dtype"],
+    "np.array": ["object", "dtype"], "np.asarray": ["a", "dtype"], "np.arange": ["start", "stop", "step"], "np.repeat": ["a", "repeats", "axis"],
+    "np.tile": ["A", "reps"], "np.reshape": ["a", "newshape"], "np.concatenate": ["arrays", "axis"], "np.where": ["condition", "x", "y"],
+    "np.isin": ["element", "test_elements"], "np.searchsorted": ["a", "v", "side"], "np.sum": ["a", "axis"], "np.max": ["a", "axis"], "np.min": ["a", "axis"],
+    "np.mean": ["a", "axis"], "np.any": ["a", "axis"], "np.all": ["a", "axis"], "np.sort": ["a", "axis"], "np.append": ["arr", "values", "axis"],
+    "np.delete": ["arr", "obj", "axis"], "np.insert": ["arr", "obj", "values", "axis"], "np.take": ["a", "indices", "axis"],
+    "np.stack": ["arrays", "axis"], "np.swapaxes": ["a", "axis1", "axis2"], "np.transpose": ["a", "axes"], "np.clip": ["a", "a_min", "a_max"],
+    "np.linspace": ["start", "stop", "num"], "np.full_like": ["a", "fill_value", "dtype"], "np.zeros_like": ["a", "dtype"],
+    "np.unique": ["ar"], "np.argsort": ["a", "axis"], "np.cumsum": ["a", "axis"], "np.diff": ["a", "n", "axis"], "np.isclose": ["a", "b"],
+    "np.allclose": ["a", "b"], "np.array_equal": ["a1", "a2"], "np.frombuffer": ["buffer", "dtype"], "np.fromiter": ["iter", "dtype"],
+    "np.matmul": ["x1", "x2"], "np.dot": ["a", "b"], "np.cross": ["a", "b"], "np.round": ["a", "decimals"], "np.ceil": ["x"], "np.sqrt": ["x"],
+    ".astype": ["dtype"], ".reshape": ["shape"], ".sum": ["axis"], ".mean": ["axis"], ".min": ["axis"], ".max": ["axis"], ".any": ["axis"], ".all": ["axis"],
+    ".ljust": ["width", "fillchar"], ".rjust": ["width", "fillchar"], ".split": ["sep", "maxsplit"], ".replace": ["old", "new", "count"],
+    ".get": ["key", "default"], ".encode": ["encoding"], ".decode": ["encoding"], ".join": ["iterable"],
+}
+
+
+def positionalise_new_keywords(tree, call_pos, signatures, call_kw=None):
+    """undo 'positional argument -> keyword argument' in internal calls: where the reference passes the first n arguments of a callee
+    positionally and the call at hand passes fewer, keywords that name the next parameters (names from the callee's signature) are
+    moved back into their positions.  Pure spelling: Python binds the same parameter either way."""
+    n_done = 0
+    for c in ast.walk(tree):
+        if not isinstance(c, ast.Call) or not c.keywords or any(isinstance(a, ast.Starred) for a in c.args) or any(k.arg is None for k in c.keywords):
+            continue
+        nm = _callee_name(c)
+        if nm is None:
+            continue
+        want = call_pos.get(nm, 0)
+        sig = signatures.get(nm) or signatures.get(nm.lstrip(".")) or _EXTERNAL_SIGNATURES.get(nm)
+        if sig is None and nm.startswith("."):
+            sig = _EXTERNAL_SIGNATURES.get(nm)
+        if not sig or len(c.args) >= want:
+            continue
+        moved = False
+        while len(c.args) < want and len(c.args) < len(sig):
+            nxt = sig[len(c.args)]
+            kw = next((k for k in c.keywords if k.arg == nxt), None)
+            if kw is None or nxt in (call_kw or {}).get(nm, ()):
+                break            # the reference itself spells this parameter as a keyword somewhere: leave every such call alone
+            c.args.append(kw.value)
+            c.keywords.remove(kw)
+            moved = True
+        n_done += moved
+    return n_done
 
 
 def _loop_fingerprint(st):
@@ -649,6 +738,11 @@ def _remove_def(tree, fn):
         body = getattr(parent, "body", None)
         if isinstance(body, list) and fn in body:
             body.remove(fn)
+            # remembered for subclasses in other modules that call the same (inherited) helper: program.inline_inherited_new_helpers
+            owner = parent.name if isinstance(parent, ast.ClassDef) else ""
+            if not hasattr(tree, "_removed_helpers"):
+                tree._removed_helpers = {}
+            tree._removed_helpers[(owner, fn.name)] = fn
             if not body:
                 body.append(ast.Pass())
             return
@@ -1001,14 +1095,70 @@ def normalise(rel, tree, inv):
     done["constants"] = propagate_new_constants(tree, set(inv.get("globals", [])))
     done["helpers"] = inline_new_helpers(tree, set(inv.get("functions", [])))
     done["loops"] = unroll_new_literal_loops(tree, inv.get("literal_loops", {}))
+    done["comprehensions"] = expand_new_literal_comprehensions(tree, inv.get("literal_comps", {}))
+    from . import localnames
+    done["keywords"] = positionalise_new_keywords(tree, inv.get("call_positional", {}), localnames.table().get("__signatures__", {}),
+                                                  inv.get("call_keywords", {}))
     _Getattr().visit(tree)
     _Aug().visit(tree)
     ast.fix_missing_locations(tree)
     return {k: v for k, v in done.items() if v}
 
 
-def finish(tree):
-    """spelling normalisations that may become applicable after temporaries were inlined"""
+def expand_new_literal_comprehensions(tree, known):
+    """undo 'append chain -> comprehension over a table': `xs = [elt for a, b in ((..), (..)) if cond]` with a literal table is
+    written out as `xs = []` followed by one (guarded) `xs.append(..)` per row.  `known`: {qualname: [text of comprehensions the
+    reference has]} - those stay."""
+    n = 0
+    for q, fn in _iter_funcs(tree):
+        keep = set(known.get(q, []))
+
+        def rewrite(block):
+            nonlocal n
+            out = []
+            for st in block:
+                for fld in ("body", "orelse", "finalbody"):
+                    if hasattr(st, fld) and isinstance(getattr(st, fld), list) and not isinstance(st, (ast.FunctionDef, ast.AsyncFunctionDef, ast.ClassDef)):
+                        setattr(st, fld, rewrite(getattr(st, fld)))
+                if isinstance(st, ast.Try):
+                    for h in st.handlers:
+                        h.body = rewrite(h.body)
+                if isinstance(st, ast.Assign) and len(st.targets) == 1 and isinstance(st.targets[0], ast.Name) and isinstance(st.value, ast.ListComp) \
+                        and len(st.value.generators) == 1 and not st.value.generators[0].is_async and ast.unparse(st.value) not in keep:
+                    g = st.value.generators[0]
+                    fake = ast.For(target=g.target, iter=g.iter, body=[ast.Pass()], orelse=[])
+                    subs = _literal_iter(fake)
+                    tnames = {x.id for x in ast.walk(g.target) if isinstance(x, ast.Name)}
+                    name = st.targets[0].id
+                    uses_self = any(isinstance(x, ast.Name) and x.id == name for x in ast.walk(st.value))
+                    if subs is not None and not uses_self and isinstance(g.iter, (ast.Tuple, ast.List)):
+                        new = [ast.Assign(targets=[ast.Name(id=name, ctx=ast.Store())], value=ast.List(elts=[], ctx=ast.Load()))]
+                        for m in subs:
+                            app = ast.Expr(value=ast.Call(func=ast.Attribute(value=ast.Name(id=name, ctx=ast.Load()), attr="append", ctx=ast.Load()),
+                                                          args=[_subst(st.value.elt, m)], keywords=[]))
+                            if g.ifs:
+                                test = _subst(g.ifs[0], m) if len(g.ifs) == 1 else ast.BoolOp(op=ast.And(), values=[_subst(c, m) for c in g.ifs])
+                                app = ast.If(test=test, body=[app], orelse=[])
+                            new.append(app)
+                        for x in new:
+                            ast.copy_location(x, st)
+                            ast.fix_missing_locations(x)
+                        out.extend(new)
+                        n += 1
+                        continue
+                out.append(st)
+            return out
+
+        fn.body[:] = rewrite(fn.body)
+    return n
+
+
+def finish(tree, inv=None):
+    """spelling normalisations that may become applicable after temporaries were inlined (a table bound to a name first and
+    looped over afterwards is a literal loop once the name is gone)"""
+    if inv:
+        unroll_new_literal_loops(tree, inv.get("literal_loops", {}))
+        expand_new_literal_comprehensions(tree, inv.get("literal_comps", {}))
     _Getattr().visit(tree)
     _Aug().visit(tree)
     ast.fix_missing_locations(tree)
